@@ -155,6 +155,15 @@ func ParSignedDataFromProto(typ DutyType, data *pbv1.ParSignedData) (_ ParSigned
 		return ParSignedData{}, errors.New("unsupported duty type")
 	}
 
+	// Reject structurally incomplete values (nil pointers left by JSON nulls) here, inside the recover scope:
+	// exercise the accessors the receive path applies to a partial signature.
+	_, _ = signedData.MessageRoot() // Unsupported by some types (Signature); only a panic matters.
+	_ = signedData.Signature()
+
+	if _, err := signedData.Clone(); err != nil {
+		return ParSignedData{}, errors.Wrap(err, "incomplete partial signed data")
+	}
+
 	return ParSignedData{
 		SignedData: signedData,
 		ShareIdx:   int(data.GetShareIdx()),
@@ -251,6 +260,11 @@ func UnsignedDataSetFromProto(typ DutyType, set *pbv1.UnsignedDataSet) (_ Unsign
 		resp[PubKey(pubkey)], err = unmarshalUnsignedData(typ, data)
 		if err != nil {
 			return nil, err
+		}
+
+		// Reject structurally incomplete values (nil pointers left by JSON nulls) inside the recover scope.
+		if _, err = resp[PubKey(pubkey)].Clone(); err != nil {
+			return nil, errors.Wrap(err, "incomplete unsigned data")
 		}
 	}
 
